@@ -1,7 +1,46 @@
 import GluonModel.Sexp
-open GluonModel
+import GluonModel.HM
+open GluonModel GluonModel.HM
+
+partial def parseExpr : Sexp → Option Expr
+  | .list [.atom "v", .str x] => some (.var x)
+  | .list [.atom "int", n] => n.toInt?.map .int
+  | .list [.atom "str", .str s] => some (.str s)
+  | .list [.atom "con", .atom "A"] => some .conA
+  | .list [.atom "con", .atom "B"] => some .conB
+  | .list [.atom "lam", .str x, b] => (parseExpr b).map (.lam x)
+  | .list [.atom "app", f, a] => do pure (.app (← parseExpr f) (← parseExpr a))
+  | .list [.atom "lt", f, a] => do pure (.lt (← parseExpr f) (← parseExpr a))
+  | .list [.atom "let", .str x, e, b] => do pure (.letE x (← parseExpr e) (← parseExpr b))
+  | .list [.atom "if", c, t, e] => do pure (.ifE (← parseExpr c) (← parseExpr t) (← parseExpr e))
+  | .list [.atom "proj", e, .str l] => (parseExpr e).map (.proj · l)
+  | .list (.atom "rcd" :: fs) => do
+    let rec go : List Sexp → Option Expr
+      | [] => some .fnil
+      | .list [.str l, e] :: rest => do pure (.fcons l (← parseExpr e) (← go rest))
+      | _ => none
+    pure (.rcd (← go fs))
+  | .list (.atom "arr" :: es) => do
+    let xs ← es.mapM parseExpr
+    pure (xs.foldl (fun acc e => .asnoc acc e) .anil)
+  | _ => none
+
+def showTy : Ty → String
+  | .var n => "(tv " ++ toString n ++ ")"
+  | .con c => c
+  | .app f a => "(ap " ++ showTy f ++ " " ++ showTy a ++ ")"
+  | .ext l t r => "(ext " ++ l ++ " " ++ showTy t ++ " " ++ showTy r ++ ")"
+  | .empty => "nil"
 
 def handle : List Sexp → String
-  | _ => "unimplemented"
+  | [.atom "infer", e] =>
+    match parseExpr e with
+    | none => "bad-request"
+    | some e =>
+      match infer true [] e 0 with
+      | .ok (_, τ, _) => "(ok " ++ showTy (canon τ) ++ ")"
+      | .error .fuel => "fuel"
+      | .error _ => "err"
+  | _ => "bad-request"
 
 def main : IO Unit := driverLoop handle
